@@ -601,7 +601,8 @@ def run_property(plan, tier, seed, t_start):
     held = sum(1 for r in rows if r.get("outcome") == "held")
     n_notrun = sum(1 for r in rows if r.get("outcome") == "not-run")
     if n_notrun:
-        print("[%s %s] thorough budget: %d generated harnesses not decided in this run (VERIF_THOROUGH_CAP=%d, VERIF_SEED rotates the selection)" % (pid, tier, n_notrun, THOROUGH_CAP))
+        print("[%s %s] %s: %d generated harnesses not decided in this run" % (pid, tier, "VERIF_ONLY" if os.environ.get("VERIF_ONLY") else
+              "thorough budget (VERIF_THOROUGH_CAP=%d, VERIF_SEED rotates the selection)" % THOROUGH_CAP, n_notrun))
     print("[%s %s] harnesses=%d held=%d sabotage_ok=%d known=%d undecided=%d violations=%d inconclusive=%d checks=%d solver=%.1fs wall=%.0fs" % (
         pid, tier, len(rows) - n_notrun, held, sum(1 for r in rows if r.get("outcome") == "failed-as-required"),
         len(seen), sum(1 for r in rows if r.get("outcome") == "undecided"), len(violations), len(inconclusive),
